@@ -14,7 +14,9 @@ Partial by design (DESIGN §4 C05): the end-to-end claim is only *searched*; pro
                   interpreted twin and the Lean model of CPython's binding (Model/PyBind.lean)
      (d) edges.py every function exported with translate/ir_export.py, every block through ErrEdges.checkBlock
 3. Search: prog.py — generated programs compiled at opt 0 / 3 (thorough: + multi_file, separate) and driven by the same
-   script as the .py; plus fixed probes for the known difference classes.
+   script as the .py; plus fixed probes for the known difference classes;
+   ops.py — a battery of one-line functions over the primitive container / str / int operations and loop forms on
+   boundary operands, compiled at opt 0 and 3.
 A compiled ≠ CPython observation is a concrete failure of C05: KNOWN-FINDING when it matches a listed class exactly,
 VIOLATION otherwise.  A model ≠ implementation difference without such an observation: VIOLATION … no-failing-input-found.
 """
@@ -24,7 +26,7 @@ import json
 from concurrent.futures import ThreadPoolExecutor
 
 from harness.vlib.core import Ctx
-from harness.c05 import bind, edges, fr, prog, vt
+from harness.c05 import bind, edges, fr, ops, prog, vt
 
 MODEL_FILES = ["MypyVerif/Model/VTable.lean", "MypyVerif/Model/ForRange.lean", "MypyVerif/Model/ErrEdges.lean",
                "MypyVerif/Proofs/VTable.lean", "MypyVerif/Proofs/ForRange.lean", "MypyVerif/Proofs/ErrEdges.lean"]
@@ -57,7 +59,7 @@ def main(ctx: Ctx) -> None:
     with ThreadPoolExecutor(max_workers=6) as pool:
         # phase 1 of each part generates its inputs and submits its C compiles (≤ 6 at a time); the in-process
         # vtable part runs while they compile; phase 2 drives the compiled modules
-        parts = [fr.run(ctx, pool, col), bind.run(ctx, pool, col), prog.run(ctx, pool, col)]
+        parts = [fr.run(ctx, pool, col), bind.run(ctx, pool, col), ops.run(ctx, pool, col), prog.run(ctx, pool, col)]
         for g in parts:
             next(g)
         vt.run(ctx, col)
@@ -81,6 +83,8 @@ def replay(ctx: Ctx, path: str) -> int:
         bind.replay(ctx, det)
     elif kind == "prog":
         prog.replay(ctx, det)
+    elif kind == "ops":
+        ops.replay(ctx, det)
     elif kind == "edges":
         print(det.get("ir", ""))
     else:
